@@ -56,10 +56,52 @@ class SourceDB:
             self.missing.append((rel, str(e)))
             return
         funcs, classes = {}, {}
+        _KNOWN = ("staticmethod", "classmethod", "property")
+
+        def _decorated(fd):
+            """a decorator other than staticmethod/classmethod/property/.setter replaces the function by something
+            this front end does not model: the def's body is then *not* the code that runs."""
+            for d in fd.decorator_list:
+                if isinstance(d, ast.Name) and d.id in _KNOWN:
+                    continue
+                if isinstance(d, ast.Attribute) and d.attr == "setter":
+                    continue
+                return "decorated by %s" % ast.unparse(d)
+            return None
+
+        def _targets(stmt):
+            ts = []
+            if isinstance(stmt, ast.Assign):
+                ts = list(stmt.targets)
+            elif isinstance(stmt, (ast.AugAssign, ast.AnnAssign)):
+                ts = [stmt.target]
+            out = []
+            for t in ts:
+                out.extend(t.elts if isinstance(t, (ast.Tuple, ast.List)) else [t])
+            return out
+
+        # names re-bound at module level / attributes of classes assigned at module level (monkey patching)
+        rebound_names, rebound_attrs = {}, {}
+        for node in ast.walk(tree):
+            for t in _targets(node):
+                if isinstance(t, ast.Attribute) and isinstance(t.value, ast.Name):
+                    rebound_attrs[(t.value.id, t.attr)] = "line %d assigns %s" % (node.lineno, ast.unparse(t))
+        for node in tree.body:
+            for t in _targets(node):
+                if isinstance(t, ast.Name):
+                    rebound_names[t.id] = "line %d re-binds the name %s at module level" % (node.lineno, t.id)
+            if isinstance(node, ast.Expr) and isinstance(node.value, ast.Call) and isinstance(node.value.func, ast.Name) \
+                    and node.value.func.id == "setattr" and len(node.value.args) >= 2 \
+                    and isinstance(node.value.args[0], ast.Name) and isinstance(node.value.args[1], ast.Constant):
+                rebound_attrs[(node.value.args[0].id, node.value.args[1].value)] = "line %d: setattr" % node.lineno
         for node in tree.body:
             if isinstance(node, ast.FunctionDef):
                 funcs[node.name] = node
-                self.funcs.setdefault(node.name, (mod, node))
+                why = _decorated(node) or rebound_names.get(node.name)
+                if why:
+                    node._qvc_rebound = why
+                self.funcs[node.name] = (mod, node) if node.name not in self.funcs or self.funcs[node.name][0] == mod \
+                    else self.funcs[node.name]
             elif isinstance(node, ast.ClassDef):
                 bases = []
                 for b in node.bases:
@@ -70,8 +112,16 @@ class SourceDB:
                     else:
                         bases.append("?")
                 ci = ClassInfo(node.name, mod, node, bases)
+                cls_rebound = {}
+                for item in node.body:
+                    for t in _targets(item):
+                        if isinstance(t, ast.Name):
+                            cls_rebound[t.id] = "line %d re-binds %s.%s in the class body" % (item.lineno, node.name, t.id)
                 for item in node.body:
                     if isinstance(item, ast.FunctionDef):
+                        why = _decorated(item) or cls_rebound.get(item.name) or rebound_attrs.get((node.name, item.name))
+                        if why:
+                            item._qvc_rebound = why
                         kind = "method"
                         for d in item.decorator_list:
                             if isinstance(d, ast.Name) and d.id in ("staticmethod", "classmethod", "property"):
